@@ -970,36 +970,47 @@ def width(ctx, report, rule, facts, config):
         opt = init[0] == "agg" and init[2] == OPTION + "::None"
         if not (init == ("int", 0) or opt):
             pr.append("the running maximum does not start at 0")
+        some_prev = ("field", ("variant", lv, "Some"), "0", OPTION)
         for it in L.iters:
             if it.end != "continue":
                 continue
             u = it.updates.get(k)
-            good = False
             if opt:
-                # Iterator::max model: Some(max(previous or x, x))
-                good = (u[0] == "agg" and u[2] == OPTION + "::Some" and u[3][0][0] == "bin" and u[3][0][1] == "Max" and is_w(u[3][0][3]))
-            elif Q.callee_of(ev, u) is not None and Q.callee_of(ev, u).name == "max" and len(u[2]) == 2:
-                a, b = Q.strip(ev, u[2][0]), Q.strip(ev, u[2][1])
-                good = (a == lv and is_w(b)) or (b == lv and is_w(a))
+                if not (u[0] == "agg" and u[2] == OPTION + "::Some"):
+                    pr.append("the running maximum is lost on some iteration")
+                    continue
+                newv = Q.strip(ev, u[3][0])
+                pv = it.path.variant(lv)
+                prev = some_prev if pv == "Some" else (None if pv == "None" else "unknown")
             else:
-                rel = None
+                newv = Q.strip(ev, u)
+                prev = lv
+            good = False
+            if newv[0] == "bin" and newv[1] == "Max" and is_w(newv[3]):
+                good = True   # Iterator::max as modelled: max(previous if any, x)
+            elif Q.callee_of(ev, newv) is not None and Q.callee_of(ev, newv).name == "max" and len(newv[2]) == 2 and prev not in (None, "unknown"):
+                a, b = Q.strip(ev, newv[2][0]), Q.strip(ev, newv[2][1])
+                good = (a == prev and is_w(b)) or (b == prev and is_w(a))
+            elif prev is None:
+                good = is_w(newv)
+            elif prev != "unknown":
+                rel = None   # relation (width ? previous) that holds on this way
                 for (ct, cv, cn, cs) in it.conds:
                     nc = Q.norm_cmp(ct, cv)
                     if nc is None:
                         continue
                     op, a, b = nc
                     a, b = Q.strip(ev, a), Q.strip(ev, b)
-                    if a == lv and is_w(b):
+                    if a == prev and is_w(b):
                         rel = Q.FLIP[op]
-                    elif b == lv and is_w(a):
+                    elif b == prev and is_w(a):
                         rel = op
-                # rel: relation (width ? running maximum) that holds on this way
-                if rel in ("Gt", "Ge") and is_w(u):
+                if rel in ("Gt", "Ge") and is_w(newv):
                     good = True
-                if rel in ("Le", "Lt", "Eq") and u == lv:
+                if rel in ("Le", "Lt", "Eq") and newv == prev:
                     good = True
-                if rel == "Ge" and u == lv:
-                    good = False
+                if rel in ("Le", "Eq", "Ge") and (is_w(newv) or newv == prev) and rel == "Eq":
+                    good = True
             if not good:
                 pr.append("the running value is not updated to max(previous, stage.max_threads())")
         r = e.ret
